@@ -39,6 +39,9 @@ FIRST, LAST = 2, 2958465            # day numbers of 1900-01-01 and 9999-12-31
 TOL = Fraction(1, 10 ** 9)          # decimals: within 1e-9 days
 STRIDES = [1, 2, 7, 28, 29, 30, 31, 59, 60, 365, 366, 730, 1461, 36524, 36525, 146097]
 NPROC = min(16, os.cpu_count() or 1)
+# the code under test loops over the years since 1900 in every conversion (about
+# 1 ms each in year 9999), so the costly forms are run on a share of the random days
+RANDOM_DAY_MODES = ["lean"] * 7 + ["light"] * 2 + ["full"]
 
 
 # ------------------------------------------------------------------ calendar table
@@ -131,10 +134,14 @@ def dec_close(v, n, s):
 def check_day(it, y, m, d, n, s, offs, mode="full"):
     """Conversions for the day (y, m, d) whose predicted day number is n, with
     second-of-day s for the timed forms; offs = [(k, (y2, m2, d2)), ...] are
-    offsets with the predicted target date.  mode: "direct" = only
-    ckl.date.to_oa_date / to_date; "light" = plus int(date), date(n); "full" =
-    plus every conversion form; "arith" = only the offsets.  The offsets are
-    checked in every mode but "direct".  Returns (violations, count)."""
+    offsets with the predicted target date.  mode:
+      "lean"   to_oa_date(date with time) and to_date of the number it gave
+      "bound"  lean, and one `date +- k` through the interpreter
+      "direct" ckl.date.to_oa_date / to_date at midnight and with the time
+      "light"  direct, int(date), date(n), `date +- k`, `date - date`
+      "full"   every conversion form and every law for each offset
+      "arith"  only the laws for each offset
+    Returns (violations, count)."""
     out = []
     cnt = 0
     ymd = (y, m, d)
@@ -158,17 +165,20 @@ def check_day(it, y, m, d, n, s, offs, mode="full"):
 
     if mode != "arith":
         h, mi, se = hms(s)
+        lean = mode in ("lean", "bound")
         # date -> day number
-        direct("to_oa_date", [y, m, d], n, lambda v: v == n)
+        if not lean:
+            direct("to_oa_date", [y, m, d], n, lambda v: v == n)
         ot = direct("to_oa_date", [y, m, d, h, mi, se], "%d+%d/86400" % (n, s),
                     lambda v: abs(Fraction(v) - (n + Fraction(s, 86400))) <= TOL)
         # day number -> date; the number the code itself produced must come back as the same date
-        direct("to_date", n, ymd + (0,), lambda v: fields(v) == ymd + (0,))
+        if not lean:
+            direct("to_date", n, ymd + (0,), lambda v: fields(v) == ymd + (0,))
         back = ot[1] if ot[0] == "val" and isinstance(ot[1], (int, float)) else n + s / 86400
         direct("to_date", back, ymd + (s,), lambda v: fields(v) == ymd + (s,))
         if mode == "full" and back != n + s / 86400:
             direct("to_date", n + s / 86400, ymd + (s,), lambda v: fields(v) == ymd + (s,))
-    if mode == "direct":
+    if mode in ("direct", "lean"):
         return out, cnt
 
     # through the interpreter (one program; on any failure the parts are run one by one)
@@ -196,6 +206,8 @@ def check_day(it, y, m, d, n, s, offs, mode="full"):
             parts.append(("%s + %d" % (DT, k), "eq", want))
         else:
             parts.append(("%s - %d" % (DT, -k), "eq", want))
+        if mode == "bound":
+            continue
         parts.append(("%s - %s" % (T, DT), "int", k))
         if mode != "light":
             if k >= 0:
@@ -565,7 +577,7 @@ def run(run):
         n = tab.num(y, m, d)
         if s is None:
             s = rng.randrange(86400)
-        if mode == "light":
+        if mode in ("light", "bound"):
             # one step across the nearest month / year boundary, predicted by the table
             k = 1 if d > 15 else -1
             offs = [(k, tab.date(n + k))] if FIRST <= n + k <= LAST else []
@@ -585,16 +597,16 @@ def run(run):
         jobs.append((y, m, d, n, s, offsets_for(tab, rng, n, 2), "full"))
     # every year boundary 1900..9999 and the end of every February
     for y in range(1900, 10000):
-        add_day(y, 1, 1, "light", 0)
-        add_day(y, 12, 31, "light", 0)
-        add_day(y, 2, tab.first[(y, 2)][1], "direct", 0)
-        add_day(y, 3, 1, "direct", 0)
+        add_day(y, 1, 1, "bound", 0)
+        add_day(y, 12, 31, "bound", 0)
+        add_day(y, 2, tab.first[(y, 2)][1], "lean", 0)
+        add_day(y, 3, 1, "lean", 0)
     nbound = len(seen) - nwalk
     # random days
     nrand = 20000 if quick else 60000
     for _ in range(nrand):
         y, m, d = tab.date(rng.randint(FIRST, LAST))
-        add_day(y, m, d, "full" if rng.random() < 0.25 else "light", 1)
+        add_day(y, m, d, rng.choice(RANDOM_DAY_MODES), 1)
     ndays = len(jobs)
     if not quick:
         # every day of every month: direct conversions (to_oa_date / to_date, with a random time)
@@ -614,11 +626,15 @@ def run(run):
             jobs.append(b + (tab.num(*b), rng.randrange(86400), offs[i:i + 4], "arith"))
             acases += len(offs[i:i + 4])
     # binding B: recorded walks
-    nt = 1600 if quick else 16000
+    nt = 800 if quick else 12000
     per = 20
     for i in range(nt // per):
         jobs.append(("traces", rng.randrange(2 ** 30), per))
     sample_day = next(j for j in jobs if j[-1] == "full")
+    modes = {}
+    for j in jobs:
+        if not isinstance(j[0], str):
+            modes[j[-1]] = modes.get(j[-1], 0) + 1
     rng.shuffle(jobs)               # far-future days are ~10x slower: spread them over the pool
     evals, events, meta = run_jobs(run, jobs, 16)
     run.sample({"DAY": {"date": list(sample_day[:3]), "n": sample_day[3], "second_of_day": sample_day[4],
@@ -639,7 +655,7 @@ def run(run):
     run.cov["exhaustive"] = not quick
     run.cov["bounds"] = {"days_of_walked_months": nwalk, "year_and_february_boundaries": nbound,
                          "random_days_requested": nrand, "distinct_days": ndistinct,
-                         "arith_cases": acases, "recorded_walks": ntr,
+                         "day_jobs_by_mode": modes, "arith_cases": acases, "recorded_walks": ntr,
                          "trace_events": nev, "trace_events_rejected": nbad,
                          "day_numbers": [FIRST, LAST], "processes": NPROC}
     run.assumptions += [
